@@ -196,9 +196,23 @@ pub fn packed(
 ) -> Option<Vec<u32>> {
     let doc = wrap(cells.to_vec());
     let dc = DocCtx::new(&doc);
+    packed_on(run, acc, q, ast, cells, wrap, class, &dc)
+}
+
+/// `packed` with the packed document already built (`dc.doc == wrap(cells)`)
+pub fn packed_on(
+    run: &Run,
+    acc: &mut Acc,
+    q: &str,
+    ast: &Query,
+    cells: &[Value],
+    wrap: &dyn Fn(Vec<Value>) -> Value,
+    class: &str,
+    dc: &DocCtx,
+) -> Option<Vec<u32>> {
     acc.evals += cells.len() as u64;
     acc.bump("packed_executions", 1);
-    match agrees(q, ast, &dc) {
+    match agrees(q, ast, dc) {
         None => {
             acc.bump("skipped_outside_model", 1);
             None
@@ -214,7 +228,7 @@ pub fn packed(
             let after = acc.viol_count + acc.known.values().map(|x| x.0).sum::<u64>();
             if after == before {
                 // only the packed document shows it
-                check_case(run, acc, q, ast, &dc, Mode::Nodes, class);
+                check_case(run, acc, q, ast, dc, Mode::Nodes, class);
             }
             // the observation is still returned: model-independent oracles (algebraic laws) use it
             if got.iter().any(|i| *i == FABRICATED) {
